@@ -10,7 +10,7 @@ FINDINGS.md - C18
 
 STATUS (HEAD 2b37706): all four defects found by this check are REPAIRED in /repo by additive fix
 commits; KNOWN_FINDINGS.jsonl lists the six signatures as `fixed`; `./run.sh C18 quick|thorough` exits 0
-(quick 11-13 s, 1 593 230 deliveries; thorough 112 s, 9 878 340 deliveries; no worker deaths any more).
+(quick 12 s, 1 631 160 deliveries; thorough 101 s, 10 028 258 deliveries; no worker deaths any more).
 
   F1 (D14)      a63377d  a precommit for height 0 must not reach the missing last commit
   F2, F4 (D18a, D18c)  ad4f98a  BitArray.FromProto takes an array whose bits and words disagree as empty
@@ -180,6 +180,32 @@ limit+1, limit+2, 2^31, 2^32-1 (and 2^63, 2^64-1 for 64-bit fields)} over
   HasVote        index (limit = validator count; 63,64,65) x type x round
   VoteSetBits    votes (consistent arrays; limits validator count and 10000) x type x round
 
-9 of 11 caught by the quick tier (exit 1, VIOLATION lines for new signatures); the two that are not
+c18-seeded-c-pickvotetosend-getters-before-size-check | consensus: same failures as unchanged tree | YES | 1: NewRoundStep height+round+step+last_commit_round (min. case height=2^64-2, round 0, step 1,
+  (independently seeded, /verif/seeded/C18c: PeerState.PickVoteToSend reads votes.GetHeight()/GetRound() |  last_commit_round 1) -> gossip-routine-panic in gossipVotesRoutine, node-state=any, peer=any, 576 cases
+   before the Size()==0 check; the catch-up branch hands it a nil *Commit from LoadBlockCommit)   |
+
+Why the quick tier (and thorough) first MISSED C18c - diagnosis:
+  * not the gossip run, not the oracle, not a stub: the real gossipVotesRoutine ran on the peer state, its
+    catch-up branch called the fixture's real block store (rawdb.ReadCommit);
+  * the boundary set had 2^64-1 but not 2^64-2, and height 2^64-1 is masked: rawdb.WriteBlock stores a
+    block's LastCommit under key height-1, so the genesis block (height 0) leaves an (empty, non-nil) commit
+    under key 2^64-1 and LoadBlockCommit(2^64-1) does not return nil; 2^64-2 (prs.Height+2 wraps to 0) has
+    no commit. At height 1 it additionally needs last_commit_round != 0 (a pair), at height 2 the seed's
+    last_commit_round is already 1 (a single-field mutation suffices once the value exists).
+Strengthened (nothing loosened): 2^64-2 added to both varint boundary sets (all single/pair/signed
+  enumerations); NewRoundStep coupled group height x round x step x last_commit_round relative to the node's
+  height; claimed-position sequences (genClaimed) for NewRoundStep / NewValidBlock / HasVote / VoteSetBits /
+  VoteSetMaj23 / ProposalPOL; the gossip routines now also run after the preceding deliveries of a sequence
+  (once after the claim alone, and after the message when the sequence as a whole changed the peer state);
+  extra node state h3-newheight (two committed blocks) in these units so that the catch-up branches find
+  stored commits / metas / parts (LoadBlockCommit present) as well as none. A failure caused by the claim
+  alone is attributed to the claim; a coupled group is one failure class per (message, field group, oracle)
+  named after its minimal failing case; between a coupled group and a single-field group of the same message
+  and oracle the one failing in strictly more node states is reported.
+  Coupled units now: 12 node states x {fresh, known} = 24 units, 41 792 cases, 8.6 worker-seconds; quick
+  11.8-12.0 s wall on the unchanged tree (1 631 160 deliveries, distinct 73 221), thorough 101 s
+  (10 028 258 deliveries, distinct 368 610), both exit 0.
+
+10 of 12 caught by the quick tier (exit 1, VIOLATION lines for new signatures); the two that are not
 caught do not break the property as stated (contained panic = "at most the sending peer is dropped").
 */
